@@ -13,6 +13,7 @@ import (
 	"go/token"
 	"go/types"
 	"path/filepath"
+	"strconv"
 	"strings"
 
 	"golang.org/x/tools/go/packages"
@@ -46,7 +47,7 @@ func (P *Program) InstrumentPackage(pkgPath string, skip map[string]bool) (map[s
 		if skip[filepath.Base(name)] || strings.HasSuffix(name, "_test.go") {
 			continue
 		}
-		ins := &instrumenter{info: pkg.TypesInfo}
+		ins := &instrumenter{info: pkg.TypesInfo, forceSel: P.ForceSelect}
 		changed := false
 		for _, d := range f.Decls {
 			if fd, ok := d.(*ast.FuncDecl); ok && fd.Body != nil {
@@ -60,6 +61,22 @@ func (P *Program) InstrumentPackage(pkgPath string, skip map[string]bool) (map[s
 		if !changed {
 			continue
 		}
+		if len(ins.rewritten) > 0 {
+			// the clauses of a rewritten select are printed twice: comments inside would be misplaced
+			var keep []*ast.CommentGroup
+			for _, cg := range f.Comments {
+				inside := false
+				for _, r := range ins.rewritten {
+					if cg.Pos() >= r[0] && cg.End() <= r[1] {
+						inside = true
+					}
+				}
+				if !inside {
+					keep = append(keep, cg)
+				}
+			}
+			f.Comments = keep
+		}
 		var buf bytes.Buffer
 		if err := format.Node(&buf, P.Fset, f); err != nil {
 			return nil, err
@@ -70,8 +87,54 @@ func (P *Program) InstrumentPackage(pkgPath string, skip map[string]bool) (map[s
 }
 
 type instrumenter struct {
-	info *types.Info
-	n    int
+	info      *types.Info
+	n         int
+	forceSel  bool
+	rewritten [][2]token.Pos // source ranges of the selects rewritten by forceSelect
+}
+
+// forceSelect wraps an (already instrumented) select with at least two communication clauses:
+//
+//	switch verifSel() {
+//	case 0:  select { <clause 0> }
+//	case 1:  select { <clause 1> } ...
+//	default: <the select as it was>
+//	}
+//
+// verifSel() is -1 unless the replay file says which case this execution of the select took in
+// the symbolic run (it had several ready cases there; the native choice would be random). Case
+// numbers count the communication clauses in source order, as ssa.Select.States does.
+func (ins *instrumenter) forceSelect(s *ast.SelectStmt) ast.Stmt {
+	var comms []*ast.CommClause
+	for _, c := range s.Body.List {
+		if cc, ok := c.(*ast.CommClause); ok && cc.Comm != nil {
+			comms = append(comms, cc)
+		}
+	}
+	if len(comms) < 2 {
+		return s
+	}
+	labelled := false
+	ast.Inspect(s, func(n ast.Node) bool {
+		if _, ok := n.(*ast.LabeledStmt); ok {
+			labelled = true // a label must not be declared twice
+		}
+		return !labelled
+	})
+	if labelled {
+		return s
+	}
+	ins.rewritten = append(ins.rewritten, [2]token.Pos{s.Pos(), s.End()})
+	sw := &ast.SwitchStmt{Tag: &ast.CallExpr{Fun: ast.NewIdent("verifSel")}, Body: &ast.BlockStmt{}}
+	for i, cc := range comms {
+		one := &ast.SelectStmt{Body: &ast.BlockStmt{List: []ast.Stmt{cc}}}
+		sw.Body.List = append(sw.Body.List, &ast.CaseClause{
+			List: []ast.Expr{&ast.BasicLit{Kind: token.INT, Value: strconv.Itoa(i)}},
+			Body: []ast.Stmt{one},
+		})
+	}
+	sw.Body.List = append(sw.Body.List, &ast.CaseClause{Body: []ast.Stmt{s}})
+	return sw
 }
 
 func spStmt() ast.Stmt {
@@ -97,8 +160,12 @@ func (ins *instrumenter) list(list []ast.Stmt) []ast.Stmt {
 		if ins.needsSP(s) {
 			out = append(out, spStmt())
 			ins.n++
+			post := ins.post(s)
+			if sel, ok := s.(*ast.SelectStmt); ok && ins.forceSel {
+				s = ins.forceSelect(sel)
+			}
 			out = append(out, s)
-			out = append(out, ins.post(s)...)
+			out = append(out, post...)
 			continue
 		}
 		out = append(out, s)
@@ -308,6 +375,7 @@ func HookFile(pkgName string) []byte {
 var VerifSPHook func()
 var VerifSpawnHook func() int
 var VerifEnterHook func(int)
+var VerifSelHook func() int
 
 func verifSP() {
 	if VerifSPHook != nil {
@@ -324,6 +392,12 @@ func verifEnter(id int) {
 	if VerifEnterHook != nil {
 		VerifEnterHook(id)
 	}
+}
+func verifSel() int {
+	if VerifSelHook != nil {
+		return VerifSelHook()
+	}
+	return -1
 }
 `)
 }
